@@ -91,6 +91,21 @@ def corrupt(rng, src):
     return "".join(chars)
 
 
+# valid shaders in which a resource is only MENTIONED (address taken / value discarded), in an entry point or a helper:
+# the validator's own use analysis and the generator's walk may differ on these, the output must not
+_HDR = ("@group(0) @binding(0) var<storage, read_write> buf: array<f32, 4>;\n@group(0) @binding(1) var tex: texture_2d<f32>;\n"
+        "@group(0) @binding(2) var samp: sampler;\n@group(1) @binding(0) var<uniform> u: vec4<f32>;\n"
+        "var<push_constant> pc: vec4<f32>;\n")
+MENTION_ONLY = [
+    _HDR + "@fragment fn fs() -> @location(0) vec4<f32> { let p = &buf; return vec4<f32>(0.0); }\n@vertex fn vs() -> @builtin(position) vec4<f32> { return u; }\n",
+    _HDR + "@fragment fn fs() -> @location(0) vec4<f32> { _ = tex; _ = samp; return u; }\n@compute @workgroup_size(1) fn cs() { buf[0] = 1.0; }\n",
+    _HDR + "fn helper() { let q = &pc; }\n@vertex fn vs() -> @builtin(position) vec4<f32> { helper(); return u; }\n@fragment fn fs() -> @location(0) vec4<f32> { return pc; }\n",
+    _HDR + "fn helper() -> f32 { let q = &buf[1]; return 1.0; }\n@vertex fn vs() -> @builtin(position) vec4<f32> { return vec4<f32>(helper()); }\n@fragment fn fs() -> @location(0) vec4<f32> { return u; }\n",
+    _HDR + "@compute @workgroup_size(1) fn cs() { let a = &u; let b = &pc; _ = tex; }\n@fragment fn fs() -> @location(0) vec4<f32> { return textureSample(tex, samp, vec2<f32>(0.0)); }\n",
+    _HDR + "@vertex fn vs() -> @builtin(position) vec4<f32> { if false { let p = &buf; } return vec4<f32>(0.0); }\n@fragment fn fs() -> @location(0) vec4<f32> { loop { _ = samp; break; } return u; }\n",
+]
+
+
 def cases(rng, tier):
     n = {"quick": 700, "search": 1500, "thorough": 6000}[tier]
     seeds = []
@@ -100,6 +115,7 @@ def cases(rng, tier):
         seeds.append(structgen.program(rng)["wgsl"])
     seeds.append(open("/repo/wgsl_to_wgpu/src/data/bindgroup/vertex_fragment.wgsl").read())
     texts = [(s, "valid") for s in rng.sample(seeds, 25)] + [(t, "semantically_invalid") for t in INVALID]
+    texts += [(t, "mention_only") for t in MENTION_ONLY]
     for i in range(n):
         t = corrupt(rng, rng.choice(seeds))
         if rng.random() < 0.2:
